@@ -197,6 +197,14 @@ public:
             }
 
         } // for
+
+        // Pixel data can address 2^bits_per_pixel palette entries whatever the header declares:
+        // make every index valid (colours the file does not declare are transparent black).
+        std::size_t const addressable = std::size_t(1) << (_info._bits_per_pixel < 8 ? _info._bits_per_pixel : 8);
+        if( _palette.size() < addressable )
+        {
+            _palette.resize( addressable, rgba8_pixel_t(0, 0, 0, 0));
+        }
     }
 
     /// Check if image is large enough.
